@@ -140,10 +140,23 @@ func enumerate(thorough bool) []*R {
 	if thorough {
 		results = tuples([]*R{tInt, rn("E1")}, 2)
 	}
-	out = append(out, funcs(tuples([]*R{tInt, tString, tSliceI, rn("N1")}, 2), results, []*R{nil, rn("N1"), r1("ptr", rn("N1")), tInt})...)
+	recvs := []*R{nil, rn("N1"), r1("ptr", rn("N1"))}
+	if thorough {
+		recvs = append(recvs, tInt)
+	}
+	out = append(out, funcs(tuples([]*R{tInt, tString, tSliceI, rn("N1")}, 2), results, recvs)...)
 	fnames := []fieldName{{"a", "p"}, {"a", "q"}, {"A", "p"}, {"b", "p"}}
 	fv := fieldVariants(fnames, []*R{tInt, tString, rn("N1")}, []string{"", "x"}, true)
-	out = append(out, structs(fv, fv)...)
+	fvSecond := fv
+	if !thorough { // quick: the second field comes from a sample of the variants (every name, type, tag and both embedded types occur)
+		fvSecond = nil
+		for i, f := range fv {
+			if i%3 == 0 || f.Emb {
+				fvSecond = append(fvSecond, f)
+			}
+		}
+	}
+	out = append(out, structs(fv, fvSecond)...)
 	mnames := []fieldName{{"m", "p"}, {"n", "p"}, {"x", "p"}, {"x", "q"}}
 	sigs := []*R{rfunc(nil, nil, nil, false), rfunc(nil, []*R{tInt}, nil, false)}
 	if thorough {
@@ -179,7 +192,11 @@ func enumerate(thorough bool) []*R {
 		}
 	}
 	repsB := []*R{r1("ptr", tInt), tSliceI, rfunc(nil, nil, nil, false), sAp, iSelf, iE1}
-	out = append(out, funcs(tuples(repsB, 2), [][]*R{nil, {iSelf}, {rfunc(nil, []*R{tInt}, nil, false)}}, []*R{nil, r1("ptr", rn("N1")), iSelf})...)
+	recvs2 := []*R{nil, iSelf}
+	if thorough {
+		recvs2 = append(recvs2, r1("ptr", rn("N1")))
+	}
+	out = append(out, funcs(tuples(repsB, 2), [][]*R{nil, {iSelf}, {rfunc(nil, []*R{tInt}, nil, false)}}, recvs2)...)
 	fv2 := fieldVariants([]fieldName{{"a", "p"}, {"a", "q"}, {"A", "p"}}, append([]*R{tInt}, repsB...), []string{"", "x"}, false)
 	out = append(out, structs(fv2, []F{{Name: "A", Pkg: "p", T: tInt}, {Name: "b", Pkg: "p", Tag: "x", T: tString}, {Name: "N1", Pkg: "p", Emb: true, T: rn("N1")}})...)
 	var sigs2 []*R
